@@ -245,8 +245,31 @@ def clashing_names(seed=0):
     oz = SigmaZ()
     oz.name = "period"
     oe = ObservableEvaluator(3, [SigmaZ(), oz], num_samples=8, burn_in=1, steps=1)
-    st.fit(data, epochs=9, pos_batch_size=2, neg_batch_size=2, k=1, lr=0.05, callbacks=[me, oe])
+    # names that need quoting in a CSV file, logged to disk and read back with the csv module
+    tmp = tempfile.mkdtemp(prefix="vf_c17q_")
+    awkward = {"KL(p,q)": lambda s, **k: float(s.rbm_am.weights.sum()), 'fidelity "Z"': lambda s, **k: 0.25, "plain": lambda s, **k: -1.0,
+               "text, value": lambda s, **k: "a,b"}
+    mq = MetricEvaluator(2, awkward, log=os.path.join(tmp, "mq.csv"))
+    oq_obs = SigmaZ()
+    oq_obs.name = "sigma_z, site average"
+    oq = ObservableEvaluator(3, [oq_obs, SigmaZ()], num_samples=8, burn_in=1, steps=1, log=os.path.join(tmp, "oq.csv"))
+    st.fit(data, epochs=9, pos_batch_size=2, neg_batch_size=2, k=1, lr=0.05, callbacks=[me, oe, mq, oq])
     fails = []
+    try:
+        rows = list(csv.DictReader(open(os.path.join(tmp, "mq.csv"), newline="")))
+        if [r.get("epoch") for r in rows] != ["2", "4", "6", "8"] or any(set(r) != {"epoch"} | set(awkward) for r in rows) or \
+                any(r[nm] != str(v[nm]) for r, (_, v) in zip(rows, mq.past_values) for nm in awkward):
+            fails.append(("metric CSV log with names / values that contain commas and quotes does not read back as the records", None))
+        rows = list(csv.DictReader(open(os.path.join(tmp, "oq.csv"), newline="")))
+        cols = ["%s_%s" % (nm, s_) for nm in ("sigma_z, site average", "SigmaZ") for s_ in ("mean", "variance", "std_error")]
+        if [r.get("epoch") for r in rows] != ["3", "6", "9"] or any(set(r) != {"epoch"} | set(cols) for r in rows) or \
+                any(float(r["%s_%s" % (nm, s_)]) != float(v[nm][s_]) for r, (_, v) in zip(rows, oq.past_values)
+                    for nm in ("sigma_z, site average", "SigmaZ") for s_ in ("mean", "variance", "std_error")):
+            fails.append(("observable CSV log with a name that contains a comma does not read back as the records", None))
+    except Exception as e:                           # noqa: BLE001
+        fails.append(("reading the CSV logs back raised %r" % (e,), None))
+    finally:
+        shutil.rmtree(tmp, ignore_errors=True)
     # every accessor of the evaluators against the raw records of this run
     try:
         recs = oe.past_values
